@@ -285,14 +285,19 @@ def run(ctx):
     same = [('sync', 'sync'), ('async', 'async')]
     p0 = param_list(ctx, allpairs)
     small = deviation_list(ctx, same if ctx.quick else allpairs)
-    if not ctx.quick:
-        small = [dict(q, _free_switch=True) for q in small]
     st = core.Stats()
     viols = []
     samples = []
     gate = {'replayed': 0, 'mismatches': 0}
     plat = latency_list(ctx, allpairs)
-    for plist, bound in ((p0, 0), (plat, 0), (small, 1 if ctx.quick else 2)):
+    searches = [(p0, 0), (plat, 0), (small, 1)]
+    if not ctx.quick:
+        # two preemptions (free switching) where every actor is a task of one loop; with threads on either side the
+        # second deviation is out of reach (one threaded scenario alone exceeds 15 minutes) and the bound stays at one
+        searches.append(([dict(q, _free_switch=True) for q in small if q['client'] == q['server'] == 'async'], 2))
+        # one deviation also over a delayed network
+        searches.append(([dict(q, latency=0.125) for q in small if q['client'] == q['server']], 1))
+    for plist, bound in searches:
         s1, v1, sm, g1 = core.run_search(Interop, plist, bound, ctx.workers, ctx.seed)
         st.merge(s1)
         viols += v1
@@ -315,9 +320,10 @@ def run(ctx):
         'rule': '2x2 client/server pairs x transports {[polling],[websocket],both} x heartbeat {(1,1),(2,1)} x conversations: one-directional '
                 'bursts of %r sends with text/JSON/binary payloads, one message of each of %d payload shapes (empty text / dict / list / bytes, nested empties, Unicode, separators, floats, 40-byte binary) in each direction, a 3+3 exchange, an idle period of 6 heartbeat cycles with a lasso check, '
                 'and disconnect by either side right after an exchange or after 2 idle cycles. The two applications are parallel scripts: '
-                'the same conversations over a virtual network with one-way delays of 1/16 .. 7/16 s (heartbeat settings chosen so that heartbeats fall inside the handshake and the upgrade while six delays stay within ping_timeout); all interleavings everywhere; one deviation for the small conversations of the %s pairs. states = distinct (scenario, both '
+                'the same conversations over a virtual network with one-way delays of 1/16 .. 7/16 s (heartbeat settings chosen so that heartbeats fall inside the handshake and the upgrade while six delays stay within ping_timeout); all interleavings everywhere; one deviation for the small conversations of the %s pairs (thorough: also over a delayed network, and two deviations with free switching for the asyncio/asyncio pair). states = distinct (scenario, both '
                 'event logs) digests.' % (BURSTS, len(ZOO), 'same-kind' if ctx.quick else 'all'),
         'exhaustive': True, 'bound_completed': 1, 'caps_hit': st.caps,
+        'bound_completed_async_pair': 1 if ctx.quick else 2,
         'executions_by_deviations': {str(k): v for k, v in sorted(st.by_dev.items())},
         'scenarios': len(p0) + len(small) + len(plat), 'latency_scenarios': len(plat), 'determinism_gate': gate,
     }
